@@ -60,9 +60,21 @@ def tpl_name(t):
 
 # ---- known finding: zero-padded years 1..99 in templates whose year token reaches _ymd.append as a number
 def m_padded_small_year(payload):
+    """round trip fails ONLY in the year, the rendered year is 1..99 (zero-padded to four digits) in a
+    month-name / ctime / RFC 2822 form, and the year returned is that year pivoted into the
+    current century window (same last two digits, within 50 years of the parserinfo year)"""
     inp = payload.get("input")
-    return (payload.get("kind", "").startswith("round trip") and isinstance(inp, dict)
-            and inp.get("dt") is not None and 1 <= inp["dt"][0] <= 99 and inp.get("year_as_number") is True)
+    if not (payload.get("kind", "").startswith("round trip") and isinstance(inp, dict)):
+        return False
+    if not (inp.get("dt") is not None and 1 <= inp["dt"][0] <= 99 and inp.get("year_as_number") is True):
+        return False
+    impl, exp = payload.get("impl"), payload.get("expected")
+    if not (impl and exp and impl[0] and impl[0][0] == "ok"):
+        return False
+    got, want = list(impl[0][1]), list(exp[0])
+    cur = (inp.get("opts") or {}).get("cur_year") or PC.real_year()
+    return (got[1:] == want[1:] and impl[1] == exp[1] and got[0] != want[0]
+            and got[0] % 100 == want[0] % 100 and cur - 50 <= got[0] < cur + 50)
 
 
 MATCHERS = {"m_padded_small_year": m_padded_small_year}
@@ -73,6 +85,16 @@ YEAR_AS_NUMBER = {"DMonDY", "DMonthDY", "DDMonY", "DDMonthY"}
 
 def year_as_number(t):
     return t[0] in (1, 2) or DFORMS[t[1]] in YEAR_AS_NUMBER
+
+
+PROVED_DETAIL = {
+    "C02_parse_render_numeric_date_time": "{YYYY-MM-DD, YYYY/MM/DD} x {T, space} x {HH:MM, HH:MM:SS}, no zone (8 templates), all valid "
+                                          "datetimes/defaults, dayfirst=False",
+    "C02_parse_render_us_date_time": "MM/DD/YYYY x {T, space} x {HH:MM, HH:MM:SS} (4 templates), dayfirst=yearfirst=False",
+    "C02_parse_render_name_date": "{DD Mon YYYY, DD Month YYYY} x {date only, ' HH:MM', ' HH:MM:SS'} (6 templates), year >= 100",
+    "C02_parse_render_iso_frac": "YYYY-MM-DDTHH:MM:SS{.,}f with 3 or 6 fraction digits (4 templates)",
+    "C02_parse_render_ctime": "ctime(): 'Www Mon DD HH:MM:SS YYYY', day space-padded, year >= 100",
+}
 
 
 def gen_off(r):
@@ -144,7 +166,7 @@ def main():
         props = C.compile_props(CID)
     PC.install_watchdog()
     orc = C.Oracle(PC.AREA)
-    per_tpl = 6 if tier == "quick" else 160
+    per_tpl = 4 if tier == "quick" else 160
     templates = all_templates()
     stats = {"spec_diff": 0, "model_diff": 0, "not_wf_skipped": 0, "outside_guard": 0}
     hist = {}
@@ -253,6 +275,7 @@ def main():
         "input_distribution": hist,
         "templates_well_formed": len(wf_templates),
         "templates_proved": proved,
+        "templates_proved_detail": {n: PROVED_DETAIL.get(n, "") for n in proved},
         "templates_tested_only": "all well-formed templates not named in templates_proved (spec-differential + "
                                  "model correspondence only)",
         "disagreements": stats,
